@@ -123,7 +123,7 @@ class PFindings:
 
 class PSpec:
     def __init__(self, prop, clauses, profiles, backends=ALL_BACKENDS, events=None, seq_mode="singletons",
-                 support=None, nontrivial="rows", level="model_checking", cap=None, math=False, stratify=None):
+                 support=None, nontrivial="rows", level="model_checking", cap=None, math=False, stratify=None, event_cfg=None):
         self.prop = prop
         self.clauses = set(clauses)
         self.profiles = profiles          # tier -> list of (cfg, simulate or None)
@@ -136,6 +136,7 @@ class PSpec:
         self.cap = cap or {"quick": 1200, "thorough": 20000}
         self.math = math
         self.stratify = stratify
+        self.event_cfg = event_cfg
 
 
 def make_sequences(mode, nev, rnd):
@@ -162,15 +163,19 @@ def make_sequences(mode, nev, rnd):
 def build_cases(spec, tier, uni, rnd):
     trees = []
     gen_states = gen_trans = 0
-    for cfg, sim in spec.profiles[tier]:
+    for entry in spec.profiles[tier]:
+        cfg, sim = entry[0], entry[1]
+        opts = entry[2] if len(entry) > 2 else {}
         qs, r = pipeline.generate_queries(cfg, simulate=sim)
         gen_states += r.distinct
         gen_trans += r.generated
+        for t in qs:
+            t["opts"] = opts
         trees.extend(qs)
     seen = set()
     uniq = []
     for t in trees:
-        k = json.dumps(t["q"], sort_keys=True)
+        k = json.dumps([t["q"], t["opts"]], sort_keys=True)
         if k not in seen:
             seen.add(k)
             uniq.append(t)
@@ -201,7 +206,10 @@ def build_cases(spec, tier, uni, rnd):
     cid = 0
     for i, t in enumerate(uniq):
         # every query goes to one backend in rotation, and a share of them to all backends
-        if len(spec.backends) == 1 or tier == "thorough":
+        opts = t.get("opts", {})
+        if "backend" in opts:
+            bks = [opts["backend"]]
+        elif len(spec.backends) == 1 or tier == "thorough":
             bks = spec.backends
         else:
             bks = [spec.backends[i % len(spec.backends)]]
@@ -210,8 +218,15 @@ def build_cases(spec, tier, uni, rnd):
         for b in bks:
             cid += 1
             style = render.Style(method_style=(rnd.random() < 0.7))
-            cases.append({"id": cid, "backend": b, "q": t["q"], "support": spec.support or t["support"],
-                          "src": render.render(t["q"], uni, b, style)})
+            declv = opts.get("declv", "none")
+            md = None
+            if declv != "none":
+                cm = dict(uni["collmd"][b][declv])
+                if b != "atlas":
+                    cm.pop("link_libraries", None)
+                md = [{k: v for k, v in m.items() if v != ""} for m in uni["md"][b]] + [cm]
+            cases.append({"id": cid, "backend": b, "q": t["q"], "support": spec.support or t["support"], "declv": declv,
+                          "src": render.render(t["q"], uni, b, style, md=md)})
     return cases, total, exhaustive, gen_states, gen_trans
 
 
@@ -230,7 +245,7 @@ def run(spec, tier):
         cases, total, exhaustive, gs, gt = gp.apply(build_cases, (spec, tier, uni, rnd))
     stages["generate_queries"] = round(time.time() - t0, 1)
     t0 = time.time()
-    events, er = pipeline.generate_events(spec.events[tier])
+    events, er = pipeline.generate_events(spec.events[tier], cfg=spec.event_cfg)
     stages["generate_events"] = round(time.time() - t0, 1)
     seqs = make_sequences(spec.seq_mode, len(events), rnd)
     t0 = time.time()
